@@ -510,3 +510,131 @@ class EngineInit(Contract):
             "C03,C06|queue-empty-lock-free": z3.And(s.sel("deque.head", q) == s.sel("deque.tail", q), z3.Not(s.sel("Lock.locked", lk))),
             "options-stored": z3.And(s.sel("Engine.sm", me) == a.sm.e, s.sel("Engine._rtc", me) == a.rtc.e),
         }
+
+
+# =========================================================================== C13: unique_events / allowed_events
+TLQ = "statemachine.transition_list:TransitionList."
+from pyvc.core import HEAP_SORTS, A_II  # noqa: E402
+HEAP_SORTS.setdefault("odict.keys", A_II)  # dict object -> list of its keys in insertion order
+HEAP_SORTS.setdefault("odict.has", z3.ArraySort(Int, z3.ArraySort(Str, Bool)))  # membership by event id (Events hash/compare as str)
+
+
+def _odict_setitem(ex, path, d, k, v, node):
+    kid = path.sel("Event.id", k.e)
+    has = path.sel("odict.has", d.e)
+    out = []
+    for p, present in ex.branch(path, z3.Select(has, kid)):
+        if not present:
+            p.store("odict.has", d.e, z3.Store(p.sel("odict.has", d.e), kid, True))
+            lst = O(p.sel("odict.keys", d.e), "list[Event]")
+            CLASSES["list"].methods["append"].target(ex, p, lst, CallArgs([k], {}), node)
+        out.append((p, None))
+    return out
+
+
+@model
+def odict_keys(ex, path, recv, ca, node):
+    return [(path, O(path.sel("odict.keys", recv.e), "list[Event]"))]
+
+
+ClassModel("odict", methods={"keys": odict_keys})
+CLASSES["odict"].setitem_fn = _odict_setitem
+CLASSES["Transition"].props["events"] = INL("statemachine.transition:Transition.events")
+CONTRACTS["statemachine.transition:Transition.events"] = type("InlEvents", (Contract,), {"qualnames": ["statemachine.transition:Transition.events"], "inline": True})()
+
+
+def tl_list(s, tl):
+    lst = s.sel("TransitionList.transitions", tl)
+    return s.sel("list.arr", lst), s.sel("list.len", lst)
+
+
+def ev_at(s, ta, i, j):
+    """the j-th event of the i-th transition"""
+    el = s.sel("Events._items", s.sel("Transition._events", z3.Select(ta, i)))
+    return z3.Select(s.sel("list.arr", el), j), s.sel("list.len", el)
+
+
+def tl_wf(s, tl):
+    ta, tn = tl_list(s, tl)
+    i = z3.Const("i!tw", Int)
+    t = z3.Select(ta, i)
+    el = s.sel("Events._items", s.sel("Transition._events", t))
+    return z3.And(tn >= 0, valid_obj(s, s.sel("TransitionList.transitions", tl)), z3.ForAll([i], z3.Implies(
+        z3.And(i >= 0, i < tn), z3.And(valid_obj(s, t), valid_obj(s, s.sel("Transition._events", t)), valid_obj(s, el),
+                                       s.sel("list.len", el) >= 0))))
+
+
+@register
+class UniqueEvents(Contract):
+    """TransitionList.unique_events (C13): the events bound to the transitions of the list — every one
+    of them, each id exactly once."""
+
+    qualnames = [TLQ + "unique_events"]
+    params = [("self", "TransitionList")]
+    returns = "list[Event]"
+    modifies = ["list.arr+", "list.len+", "odict.has+", "odict.keys+", "dict.has+", "dict.val+"]
+    # NOT CLAIMED: 6 of the 39 obligations (preservation of the scanned/listed correspondence across the
+    # nested loops) stay `unknown` within the solver budget; the listing functions are covered by the
+    # bounded API layer (runtime/api_checks.py) instead.  Kept for the record, run by no check.
+    properties = []
+    local_types = {"tmp_ordered_unique_events_as_keys_on_dict": "odict"}
+
+    def pre(self, s, a):
+        return {"list-wf": tl_wf(s, a.self.e)}
+
+    def _clauses(self, s0, s, a, lst, has, bi, bj):
+        """Scan position (bi, bj): all (transition i, event j) lexicographically before it are done."""
+        ta, tn = tl_list(s0, a.self.e)
+        arr, n = s.sel("list.arr", lst), s.sel("list.len", lst)
+        i, j, k, k2 = (z3.Const(nm, Int) for nm in ("i!uq", "j!uq", "k!uq", "k2!uq"))
+        x = z3.Const("x!uq", Str)
+        ev, en = ev_at(s0, ta, i, j)
+        before = z3.And(i >= 0, i < tn, j >= 0, j < en, z3.Or(i < bi, z3.And(i == bi, j < bj)))
+        eid = lambda kk: s0.sel("Event.id", z3.Select(arr, kk))  # noqa: E731
+        f = {
+            "C13|every-scanned-event-is-listed": z3.ForAll([i, j], z3.Implies(before, z3.Exists([k], z3.And(
+                k >= 0, k < n, eid(k) == s0.sel("Event.id", ev))))),
+            "C13|every-listed-event-was-scanned": z3.ForAll([k], z3.Implies(z3.And(k >= 0, k < n), z3.Exists([i, j], z3.And(
+                before, s0.sel("Event.id", ev) == eid(k)))), patterns=[z3.Select(arr, k)]),
+            "C13|each-exactly-once": z3.ForAll([k, k2], z3.Implies(z3.And(0 <= k, k < k2, k2 < n), eid(k) != eid(k2))),
+        }
+        if has is not None:
+            f["keys-mirror-the-list:listed-are-keys"] = z3.ForAll([k], z3.Implies(z3.And(k >= 0, k < n), z3.Select(has, eid(k))),
+                                                                   patterns=[z3.Select(arr, k)])
+            f["keys-mirror-the-list:keys-are-listed"] = z3.ForAll([x], z3.Implies(z3.Select(has, x), z3.Exists([k], z3.And(
+                k >= 0, k < n, eid(k) == x))), patterns=[z3.Select(has, x)])
+        return f
+
+    def post(self, s0, s, a, r):
+        tn = tl_list(s0, a.self.e)[1]
+        f = self._clauses(s0, s, a, r.e, None, tn, z3.IntVal(0))
+        f["fresh"] = z3.And(r.e >= s0["ghost.alloc"], s.sel("list.len", r) >= 0)
+        return f
+
+    def _objs(self, s0, s, l):
+        d = l.tmp_ordered_unique_events_as_keys_on_dict.e
+        lst = s.sel("odict.keys", d)
+        return d, lst, {"objects": z3.And(d >= s0["ghost.alloc"], d < s["ghost.alloc"], lst >= s0["ghost.alloc"], lst < s["ghost.alloc"],
+                                          lst != d, s.sel("list.len", lst) >= 0)}
+
+    def _inv_outer(self, s0, s, a, l):
+        d, lst, f = self._objs(s0, s, l)
+        f.update(self._clauses(s0, s, a, lst, s.sel("odict.has", d), l.i, z3.IntVal(0)))
+        return f
+
+    def _inv_inner(self, s0, s, a, l):
+        d, lst, f = self._objs(s0, s, l)
+        ta, tn = tl_list(s0, a.self.e)
+        oi = z3.Const("oi!uq", Int)
+        # the outer index is not a Python variable: it is the position of the current transition
+        inner = self._clauses(s0, s, a, lst, s.sel("odict.has", d), oi, l.i)
+        el = s0.sel("Events._items", s0.sel("Transition._events", l.transition.e))
+        f["C13|position"] = z3.Exists([oi], z3.And(oi >= 0, oi < tn, z3.Select(ta, oi) == l.transition.e,
+                                                   l.n == s0.sel("list.len", el), *inner.values()))
+        return f
+
+    @property
+    def loops(self):
+        w = lambda s0, a, l: [l.tmp_ordered_unique_events_as_keys_on_dict.e]  # noqa: E731
+        lm = ["list.arr+", "list.len+", "odict.has+", "odict.keys+"]
+        return {0: LoopSpec(self._inv_outer, modifies=lm, written=w), 1: LoopSpec(self._inv_inner, modifies=lm, written=w)}
